@@ -45,6 +45,11 @@ Theorem C18_ql_dollar_quote_literal : forall U s k out, no_prohibited s = true -
 Proof. exact p_ql_dollar_quote_literal. Qed.
 Print Assumptions C18_ql_dollar_quote_literal.
 
+(* the tag search always ends within the fuel the model gives it: None is not a real outcome *)
+Theorem C18_dq_fuel_enough : forall s, ql_dollar_quote_literal s <> None.
+Proof. exact p_dq_fuel_enough. Qed.
+Print Assumptions C18_dq_fuel_enough.
+
 (* visit_Constant (STRING): whichever of '..' ".." r'..' r".." $tag$..$tag$ repr() it picks *)
 Theorem C18_ql_visit_constant : forall U s k out,
   (existsb (fun c => in_ranges c g_ql_nonprintable) s = true -> forallb (repr_char_ok U) s = true) ->
